@@ -124,6 +124,13 @@ def gen_project(rng: random.Random, want_roots: Optional[int] = None, want_name:
                 files[rel] = src
                 known += [(full, c) for c in defined]
             init, defined = gen_module(rng, r, known, docformat)
+            # wildcard import of a sub-module that has no __all__, its names re-exported through the package's __all__
+            cand = [(full, rel) for full, rel in order if '__all__' not in files[rel] and not rel.endswith('__init__.py')
+                    and len({c for m, c in known if m == full}) >= 2]
+            if cand and rng.random() < .35:
+                full, rel = rng.choice(cand)
+                names = sorted({c for m, c in known if m == full})
+                init += 'from %s import *\n__all__ = [%s]\n' % (full, ', '.join(repr(n) for n in names))
             files[r + '/__init__.py'] = init
             # things addPackage must skip
             if rng.random() < .5:
@@ -275,7 +282,10 @@ def corpus_cases() -> List[Dict[str, Any]]:
         invs['/%s/objects.inv' % proj] = [proj, [n % ('%s-%d.html#$' % (proj, j)) for j, n in enumerate(names)]]
         inv_args.append('--intersphinx={INV}/%s/objects.inv' % proj)
     out.append({'files': {'mymod.py': inv_src}, 'dirs': [], 'roots': ['mymod.py'],
-                'args': ['-q', '--project-name=I', '--disable-intersphinx-cache'] + inv_args, 'time': 'epoch', 'inventories': invs})
+                'args': ['-q', '--project-name=I', '--disable-intersphinx-cache'] + inv_args, 'time': 'epoch', 'inventories': invs,
+                # the URLs carry the ephemeral port, so which inventory a given hash seed iterates last changes from run
+                # to run of the check: eight seeds make it (1/4)^7 that an order dependence goes unseen
+                'seeds': [0, 1, 2, 3, 4, 5, 6, 7]})
     # SOURCE_DATE_EPOCH at its edges: 0 is a valid epoch (1970-01-01 00:00:00); the second run starts 2 s later
     for ep in ('0', '1', '4102444800'):
         out.append({'files': {'m.py': PLAIN_SRC}, 'dirs': [], 'roots': ['m.py'], 'args': ['-q', '--project-name=E' + ep],
